@@ -11,6 +11,7 @@ func main() { Main("C02", c02) }
 var alphabet = []byte{0x7e, 0x7d, 0x01, 0x02, 0x00, 0x41}
 
 func c02(c *Ctx) {
+	defer DrainFrameProblems(c, "C02")
 	c.Rule = "(i) all strings of length <= 6 (7 thorough) over {7e,7d,01,02,00,41}; (ii) valid header templates {2013,2019} x {fragmented,not} with every body of length <= 3 over the alphabet, checksum right / wrong by each single bit / unescaped-7d variant, declared length -1/0/+1, uninterpreted attribute bits set; (iii) every single-bit corruption, every truncation and every one-byte extension of random valid frames; (iv) random strings and random valid frames; oracle = an independent reference decoder written from the standard; non-trivial = delimited at both ends with a non-empty interior (reaches unescaping); distinct = distinct byte string"
 	rng := c.Rng
 	one := func(d []byte, what string) {
